@@ -42,6 +42,11 @@ def table_seeded():
         valid = c.get("demo_exit_unchanged_tree") == 0 and c.get("demo_exit_changed_tree", 0) != 0 and c.get("make_test_with_change", {}).get("scenarios_failed", 1) == 0
         tier = "quick" if det.get("quick_exit") == 1 else ("thorough" if det.get("thorough_exit") == 1 else "**missed**")
         sig = ", ".join(det.get("signatures", [])[:3])
+        fr = det.get("final_regression")
+        if fr and fr.get("detected"):
+            tier = "quick"; sig = ", ".join(fr.get("signatures", [])[:3])
+        elif det.get("quick_exit") == 2:
+            tier = "**not decided** (the check no longer builds against this change: exit 2)"; sig = ""
         oth = det.get("detected_by_other_check")
         if tier == "**missed**" and oth:
             tier = "outside this check's bounds/alphabet; %s %s" % (oth["check"], oth["tier"])
